@@ -1,14 +1,15 @@
 ------------------------------- MODULE SpanMC -------------------------------
 (* Model-checking instances of Span: argument domains that cannot be written in a .cfg *)
 EXTENDS Span
+ThreeModes == {"unchecked", "throwing", "terminate"}
 BothModes  == {"unchecked", "throwing"}
 Unchecked  == {"unchecked"}
 ThrowingM  == {"throwing"}
-AllKinds   == {"heap", "carray", "stdarray", "vector"}
+AllKinds   == {"heap", "carray", "stdarray", "vector", "box"}
 HeapOnly   == {"heap"}
 AllClasses == {"mem", "ctor", "copy", "sub", "subs", "elem", "write", "cmp"}
 NoEmit     == {}
-AllOps     == {"FromPtrCount", "FromPtrPair", "FromArray", "FromStdArray", "FromContainer", "MakeSpan", "Default", "ConstFrom",
-               "Copy", "Convert", "First", "Last", "Subspan", "Subspan1", "Nm", "FirstS", "LastS", "SubspanS",
-               "Index", "At", "Front", "Back", "Write", "Cmp", "AsBytes"}
+AllOps     == {"FromPtrCount", "FromPtrPair", "FromArray", "FromStdArray", "FromContainer", "MakeSpan", "Deduce", "Default",
+               "Copy", "Convert", "First", "Last", "Subspan", "Subspan1", "Nm", "FirstS", "LastS", "SubspanS", "NmS",
+               "Index", "At", "Front", "Back", "Bind", "Write", "Cmp", "AsBytes"}
 =============================================================================
